@@ -17,7 +17,7 @@ text=f'''
 {n} changes (one aimed at each of the 19 properties, a second one for C02-C05, C07-C09, C11-C13, C15, C16, a third one for
 C01, C02, C04, C06, C07, C10, C18, C19, a fourth-round one for C03, C05, C09, C11, C12, C15, C16 and a fifth-round one for
 C02, C04, C06, C07, C10, C18, C19, a sixth-round one for C03, C05, C09, C12, C13, C14, C15, C16 a seventh-round one for
-C01, C02, C04, C06, C07, C09, C17, C19 an eighth-round one for C03, C05, C13, C14, C15, C16, C18 a ninth-round one for C03, C04, C09, C10, C19 a tenth-round one for C01, C02, C04, C10, C14, C17 an eleventh-round one for C05, C06, C16, C18, C19 a twelfth-round one for C03, C05, C08, C10, C11, C14, C17, a thirteenth-round one for C12, C13, C18 a fourteenth-round one for C03, C08, C10, C19 a fifteenth-round one for C02, C04, C06, C09, C13, C14 a sixteenth-round one for C03, C10, C11, C17, C19 a seventeenth-round one for C05, C13, C16, C18 an eighteenth-round one for C02, C08, C10, C11, C18 a nineteenth-round one for C06, C09, C11, C13, C16 a twentieth-round one for C01, C05, C08, C10, C18, C19 a twenty-first-round one for C01, C02, C04, C06, C07, C10, C13, C17 a twenty-second-round one for C05, C08, C09, C11, C12, C14, C15, C18 and a twenty-third-round one for C06, C10, C13, C19) were written by
+C01, C02, C04, C06, C07, C09, C17, C19 an eighth-round one for C03, C05, C13, C14, C15, C16, C18 a ninth-round one for C03, C04, C09, C10, C19 a tenth-round one for C01, C02, C04, C10, C14, C17 an eleventh-round one for C05, C06, C16, C18, C19 a twelfth-round one for C03, C05, C08, C10, C11, C14, C17, a thirteenth-round one for C12, C13, C18 a fourteenth-round one for C03, C08, C10, C19 a fifteenth-round one for C02, C04, C06, C09, C13, C14 a sixteenth-round one for C03, C10, C11, C17, C19 a seventeenth-round one for C05, C13, C16, C18 an eighteenth-round one for C02, C08, C10, C11, C18 a nineteenth-round one for C06, C09, C11, C13, C16 a twentieth-round one for C01, C05, C08, C10, C18, C19 a twenty-first-round one for C01, C02, C04, C06, C07, C10, C13, C17 a twenty-second-round one for C05, C08, C09, C11, C12, C14, C15, C18 a twenty-third-round one for C06, C10, C13, C19 and a twenty-fourth-round one for C05, C10, C12, C16) were written by
 fresh sub-agents that were given only the text of one property and a scratch worktree of /repo under /tmp (nothing from
 /verif); each was asked for a change that compiles, keeps the 268 pinned tests green and needs something specific to
 manifest, with a demonstration that fails with the change and passes without it. Every change was re-confirmed by
@@ -25,7 +25,7 @@ manifest, with a demonstration that fails with the change and passes without it.
 stored as `seeded/<id>/{{patch.diff, seed_demo.rs (or .sh), README.md, meta.json}}`; the worktrees and their build output
 were removed afterwards. To run the checks against a change `tools/run_seed.sh <id> <checks>` applies the patch to /repo
 (`git apply`), runs `./check`, and undoes it (`git checkout -- .`); nothing of this was ever committed to /repo. No
-request was refused by the permission system or a safety layer, by a sub-agent or by me. One hundred and forty later agents (second round: C01, C06, C10, C14, C17, C18, C19; third round: C14, C17; fourth round: C08, C13; fifth round: C01, C14, C17; sixth round: C08, C11; seventh round: C01, C10; eighth round: C08, C11, C12; ninth round: C01, C02, C06, C07, C17 - half of that round; tenth round: C03, C07, C08, C11; eleventh round: C07, C09, C12, C13, C15 - half of that round; twelfth round: C01, C02, C15; thirteenth round: C02, C04, C06, C07, C09, C16, C19 - seven of ten; the C16 one, the result queue bounded to 8 per pool thread where C16d bounds it to 8, was run once against ./check C16 and reported with a hanging input; fourteenth round: C01 (= C19g), C11 (= C03f), C17 (= C17j); fifteenth round: C05 (= C16), C07 (= C07), C12 (= C12b), C16 (the result queue bounded once more, to (threads + 1) x filters: run once against ./check C16 and reported with a hanging input); sixteenth round: C02 (= C02q), C07 (= C07b), C08 and C14 (both = C08 / C14: gray+alpha indexed although the grayscale switch is off), C01 (a variant of C01j - the blue sample's low byte is not compared -, run once against ./check C01 and reported with the image); seventeenth round: C04 (= C04g + C04j in one), C06 (= C06e / C06k: the size limit made exclusive), C09 (= C09d, also on --stdout), C12 (= C12d), C15 (= C15h) - each of the five was run once against its property's check and reported with a failing input); eighteenth round: C01 (= C01, the first seed), C03 (a variant of C03h: the low alpha byte instead of the high one), C14 (= C08 / C14 for the third time), C15 (= C15d), C19 (= C19c) - the last four run once and reported with a failing input; nineteenth round: C02 (= C02g), C04 (= C04i), C05 (= C05b), C07 (= C09i), C12 (= C12d) - all five run once and reported with a failing input; twentieth round: C03 (= C03b), C14 (= C14q), C15 (= C15d, for the third time), C17 (= C17g) - all four run once and reported with a failing input; twenty-first round: C03 and C19 (both the C19v / C01w family: a pass's first row predicted from a stale previous row) - run once and reported with a failing input; twenty-second round: C16 (the C16 / C16f family: a job that returns on an expired deadline before it is counted) - run once and reported with a hanging input; twenty-third round: C01 (a variant of C11m), C02 (= C19p), C03 (= C03h), C07 (= C02q), C17 (= C17r) - all five run once and reported with a failing input came back with the same change as an
+request was refused by the permission system or a safety layer, by a sub-agent or by me. One hundred and fifty later agents (second round: C01, C06, C10, C14, C17, C18, C19; third round: C14, C17; fourth round: C08, C13; fifth round: C01, C14, C17; sixth round: C08, C11; seventh round: C01, C10; eighth round: C08, C11, C12; ninth round: C01, C02, C06, C07, C17 - half of that round; tenth round: C03, C07, C08, C11; eleventh round: C07, C09, C12, C13, C15 - half of that round; twelfth round: C01, C02, C15; thirteenth round: C02, C04, C06, C07, C09, C16, C19 - seven of ten; the C16 one, the result queue bounded to 8 per pool thread where C16d bounds it to 8, was run once against ./check C16 and reported with a hanging input; fourteenth round: C01 (= C19g), C11 (= C03f), C17 (= C17j); fifteenth round: C05 (= C16), C07 (= C07), C12 (= C12b), C16 (the result queue bounded once more, to (threads + 1) x filters: run once against ./check C16 and reported with a hanging input); sixteenth round: C02 (= C02q), C07 (= C07b), C08 and C14 (both = C08 / C14: gray+alpha indexed although the grayscale switch is off), C01 (a variant of C01j - the blue sample's low byte is not compared -, run once against ./check C01 and reported with the image); seventeenth round: C04 (= C04g + C04j in one), C06 (= C06e / C06k: the size limit made exclusive), C09 (= C09d, also on --stdout), C12 (= C12d), C15 (= C15h) - each of the five was run once against its property's check and reported with a failing input); eighteenth round: C01 (= C01, the first seed), C03 (a variant of C03h: the low alpha byte instead of the high one), C14 (= C08 / C14 for the third time), C15 (= C15d), C19 (= C19c) - the last four run once and reported with a failing input; nineteenth round: C02 (= C02g), C04 (= C04i), C05 (= C05b), C07 (= C09i), C12 (= C12d) - all five run once and reported with a failing input; twentieth round: C03 (= C03b), C14 (= C14q), C15 (= C15d, for the third time), C17 (= C17g) - all four run once and reported with a failing input; twenty-first round: C03 and C19 (both the C19v / C01w family: a pass's first row predicted from a stale previous row) - run once and reported with a failing input; twenty-second round: C16 (the C16 / C16f family: a job that returns on an expired deadline before it is counted) - run once and reported with a hanging input; twenty-third round: C01 (a variant of C11m), C02 (= C19p), C03 (= C03h), C07 (= C02q), C17 (= C17r) - all five run once and reported with a failing input; twenty-fourth round: C02 (= C02q, for the third time), C04 (= C04q), C06 (= C06c), C09 (= C09q), C11 (= C19p), C13 (= C13u) - recognised from the agents' reports and not run again came back with the same change as an
 earlier one (for C06: the change already stored for C17): not stored twice. The third round's prompt added one sentence asking
 for a less obvious place than the first function that comes to mind, which produced changes in lib.rs orchestration code;
 the fifth round's prompt additionally asked to avoid the one function where the property's main mechanism lives (changes in the
@@ -56,7 +56,8 @@ at first run, two reported by a neighbouring property's check only (C08v by C09,
 with the failing input at first run, one without it (C17w), one missed (C04w: needs an attempt strictly larger than the input). The twenty-second round (same prompt, the other properties: C05, C08, C09, C11, C12, C14, C15, C16, C18): one duplicate, eight new changes - five reported with the failing input at first run, one without it
 (C11x), one missed (C12x), and one - C05x, a change after which the executable never returns - on which the CHECK ITSELF hung: the executable path added in round 20 waited without a limit. That was a defect of the machinery,
 not a miss of the oracle; it is repaired (bounded waits, a watchdog on in-process calls) and described in 14.7. The twenty-third round (file-focused, the small arithmetic and wrapper files: C01, C02, C03, C06, C07, C10, C13, C17, C19): five duplicates, four new changes - three reported with the failing input at first run
-(one of them, C13y, by the new watchdog), one missed (C06y: needs more than 131 070 incompressible bytes).
+(one of them, C13y, by the new watchdog), one missed (C06y: needs more than 131 070 incompressible bytes). The twenty-fourth round repeated the 'performance shortcut' prompt for ten properties: six duplicates of earlier changes, four new ones - none reported with a failing input at first run (C12z without one;
+C05z, C10z, C16z missed): each needs an input of a kind no generator had produced - a stray palette index in one exact constellation, two frames colliding in length and checksum, a race of nanoseconds.
 
 Result: **all {n} are reported by the check of the property they target**, {n-len(missed)} at the first run and {len(missed)} only after
 the check was strengthened (the miss and the remedy are in the table; every remedy is a wider generator, a new stream or
@@ -191,6 +192,8 @@ What the misses taught (and what was changed):
   oracles note their case before every library call; corr-io judges 'not improvable' by size; pass-isolated colours on interlaced
   output at the presets that try the co-occurrence palette orders.
 * **Twenty-third round**: the direct check of the compressors' contract gets noise at and beyond the limits of one and two stored blocks.
+* **Twenty-fourth round**: stray-index boundary files in oracle-c05; frames with equal length and Adler-32 in the APNG generator; a
+  umask-sensitive input mode in corr-io; a load block (hundreds of batches of 64 tiny images on eight workers, no taps) in corr-sched.
 '''
 p='/verif/DESIGN.md'
 s=open(p).read()
